@@ -619,7 +619,7 @@ fn c02_sinc(acc: &mut Acc, tier: Tier, window: WindowFunction, l: usize, cc: boo
 }
 
 fn c02_fft(acc: &mut Acc, tier: Tier, a_rate: usize, b_rate: usize, journal: Option<&JournalFile>) -> Result<(), String> {
-    let chunks: Vec<usize> = if tier == Tier::Quick { vec![256, 1024] } else { vec![64, 256, 1024, 2048] };
+    let chunks: Vec<usize> = if tier == Tier::Quick { vec![64, 256, 1024] } else { vec![16, 64, 256, 1024, 2048] };
     let lim = 1e-5; // -100 dB
     let a = 0.8;
     for chunk in chunks {
@@ -627,7 +627,7 @@ fn c02_fft(acc: &mut Acc, tier: Tier, a_rate: usize, b_rate: usize, journal: Opt
             let cfg = Cfg::fft(kind, a_rate, b_rate, chunk, if kind == Kind::XX { 1 } else { 2 });
             let (fi, fo) = fft_sizes(&cfg);
             let meta = json!({"family": "fft", "fft_in": fi, "fft_out": fo});
-            if fi.min(fo) < 32 {
+            if fi.min(fo) < 4 {
                 acc.vacuous += 1;
                 continue;
             }
